@@ -24,7 +24,7 @@ EXPLANATION = (
     "subsets of what analyze() reports. Span exactness is decided per template (it does not depend on data)."
 )
 OUTSIDE = [
-    "programs outside the corpus (C12's 20 templates + 8 partial/comment layouts)",
+    "programs outside the corpus (C12's templates + the partial/comment layouts listed in EXTRA)",
     "span exactness for arbitrary source text rests on the lexer invariant of C17 (inductive step) - here it is checked on the corpus layouts, which put every comment kind in front of every reported construct",
 ]
 
@@ -54,12 +54,13 @@ EXTRA = [
 KF_TERNARY = "{{ x | plus: 1 if b else s | upcase }}"
 # A partial is analysed once (the first time it is reached): recorded finding, own program
 KF_PARTIAL_ONCE = "{% include 'p', v: x %}{% include 'p' %}"
-CORPUS = [
+# the two recorded findings keep fixed indexes (known_findings.json names their shards), whatever is appended to the corpora
+KF_TERNARY_INDEX = 0
+KF_PARTIAL_ONCE_INDEX = 1
+CORPUS = [KF_TERNARY, KF_PARTIAL_ONCE] + [
     c.replace("{{ x | plus: 1 if x > 1 else 0", "{{ x if x > 1 else 0").replace("{% include 'p' for a %}", "{% include 'p' for a as v %}")
     for c in C12_CORPUS
-] + EXTRA + [KF_TERNARY, KF_PARTIAL_ONCE]
-KF_TERNARY_INDEX = len(CORPUS) - 2
-KF_PARTIAL_ONCE_INDEX = len(CORPUS) - 1
+] + EXTRA
 TEMPLATES = [ENV.from_string(s, name=f"t{i}") for i, s in enumerate(CORPUS)]
 SOURCES = {f"t{i}": s for i, s in enumerate(CORPUS)}
 SOURCES.update(PARTS)
@@ -178,7 +179,7 @@ for _t in TEMPLATES:
     timeout=240,
     shard={"i": list(range(len(CORPUS)))},
     covers="on every path through each program (and the partials/parents it loads): variables resolved, filters applied and tags rendered are subsets of analyze().variables/.filters/.tags; every name that reaches the global namespace and is never bound by the template is in analyze().globals; analyze_async() returns the same maps; every reported span is exactly the variable path / filter name / tag",
-    bounds="33 programs (C12 corpus + partial/inheritance/comment/liquid/macro/lambda layouts), sync and async render; x int 0..4, b bool, s str over {a b} len <= 1, a list len <= 2 of ints",
+    bounds=str(len(CORPUS)) + " programs (C12 corpus + partial/inheritance/comment/liquid/macro/lambda layouts), sync and async render; x int 0..4, b bool, s str over {a b} len <= 1, a list len <= 2 of ints",
     stubs=("Node.render/render_async wrapped to log rendered tag names; RenderContext subclass logging get()/filter(); dict subclass logging global lookups",),
     grid=lambda: [(i, x, b, a, s, m) for i in range(len(CORPUS)) for x in (0, 1, 3) for b in (False, True) for a in ([], [2, 1]) for s in ("", "a") for m in (False, True)],
 )
